@@ -280,6 +280,37 @@ def register_dwarf_layouts():
         LAYOUTS['the_' + n] = lay
 
 
+def _initial_length_layout():
+    """Dwarf_initial_length (7.4; the adapter's own K1 contract is C16's): a first word below 0xffffff00 is the length
+    (4 bytes); 0xffffffff announces the 64-bit format and the length is the following 8-byte word (12 bytes); other
+    first words are rejected"""
+    lay = Layout('Dwarf_initial_length', S.Nat, size=None)
+
+    def custom(I, M, stream, owner, ln, exc):
+        from pyvc.ctx import PyExc
+        from pyvc.vals import ArrS, IntS, to_int
+        pz, L = to_int(stream.pos), to_int(stream.length)
+        err = exc if exc != 'ConstructError' else 'FieldError'
+        if not I.ctx.branch(pz + 4 <= L):
+            raise PyExc(err, ln, 'short read in initial length')
+        w = z3.Function('Dwarf_uint32', ArrS, IntS, IntS)(stream.arr, pz)
+        I.ctx.assume(z3.And(w >= 0, w < 2 ** 32))
+        if I.ctx.branch(w < 0xffffff00):
+            stream.pos = z3.simplify(pz + 4)
+            return w
+        if not I.ctx.branch(w == 0xffffffff):
+            raise PyExc(exc if exc != 'ConstructError' else 'ConstructError', ln, 'reserved initial length')
+        if not I.ctx.branch(pz + 12 <= L):
+            raise PyExc(err, ln, 'short read in 64-bit initial length')
+        v = z3.Function('Dwarf_uint64', ArrS, IntS, IntS)(stream.arr, pz + 4)
+        I.ctx.assume(z3.And(v >= 0, v < 2 ** 64))
+        stream.pos = z3.simplify(pz + 12)
+        return v
+    lay.custom = custom
+    LAYOUTS['Dwarf_initial_length'] = lay
+
+
+_initial_length_layout()
 _WORD = z3.Function('Dwarf_word', z3.ArraySort(z3.IntSort(), z3.IntSort()), z3.IntSort(), z3.IntSort(), z3.IntSort())
 
 
